@@ -374,6 +374,18 @@ std::string describe(const Problem & P, int dk, int rk, const char * sname, doub
 
 void oracle_selfchecks()
 {
+  mc::assumption("C10 backward error = |H x + J'r|_2 / (|H|_F |x|_2 + | |J|'|r| |_2), H = J'J + lambda D^2, all in long double "
+                 "(| |J|'|r| | replaces |J'r| so that cancellation in J'r is not charged to the solver)");
+  mc::assumption("C10 dense-vs-sparse / TR-vs-direct dx: |a-b|_2 / (|dx_ref|_2 + 1e-8 | |J|'|r| |_2 / lambda_min(H)) <= 1e-6, judged only "
+                 "when the long-double 2-norm condition number of H (Jacobi eigenvalues) is <= 1e8");
+  mc::assumption("C10 dphi: |dphi - ref| / (|ref| + S) with S the first-order forward-error scale per unit backward error "
+                 "3|A|_F |DH^-1|_F (|H|_F|dx| + ||J|'|r||) + |DH^-1|_F^2 |H|_F |D dx|, A = D H^-1 D; judged when cond(H) <= 1e12; "
+                 "tolerance calibrated (64 eps; worst observed 1.0e-16); the analytic long-double derivative is cross-checked in every "
+                 "case with cond(H) <= 1e8 by a complex step and a central difference (failure = harness error)");
+  mc::assumption("C10 malloc is interposed to pre-fill blocks with 0x55 bytes so that a result vector the library never wrote is "
+                 "deterministic (replayable) instead of containing heap addresses");
+  mc::assumption("C10 static-size Eigen types cover shapes 1..6 x 1..6 (Matrix<double,M,N>, Vector<N>, Vector<M>); larger shapes are "
+                 "dynamic-size only; scalar type double only (lambda/Delta are double in the API)");
   // Jacobi: V diag(w) V' = H, V'V = I on a graded SPD matrix; GE agrees with the eigen-solve
   const int n = 6;
   LMat B(n, n), H(n, n);
@@ -463,6 +475,7 @@ MC_SUBCHECK(a_colwise_norm)
       L e = 0;
       for (int j = 0; j < P.n; ++j) {
         const L b = bval(j), rr = ref[size_t(j)];
+        if (!std::isfinite(b)) return std::nan("");
         const L df = std::fabs((L)a[size_t(j)] - b);
         if (rr == 0) {
           if (df != 0) return (double)INFINITY;
@@ -477,7 +490,7 @@ MC_SUBCHECK(a_colwise_norm)
     }
     for (int a : {DENSE_DYN, DENSE_STATIC})
       for (int b : {SPARSE_COL, SPARSE_ROW})
-        if (res[a].have && res[b].have && finite_all(res[b].x))
+        if (res[a].have && res[b].have)
           c.judge(N.cwds[a][b].c_str(), rel(res[a].x, [&](int j) { return (L)res[b].x[size_t(j)]; }), TOL_CWNORM);
   });
 }
